@@ -286,6 +286,7 @@ Qed.
 Lemma kframe_ref_set_direct : forall s o a v, is_del (obj_st s o) = false -> kframe sch s (ref_set_direct sch s o a v).
 Proof.
   intros s o a v D. unfold ref_set_direct. destruct (ref_info sch (obj_ent s o) a) as [[t r]|] eqn:R; [|apply kframe_refl].
+  match goal with |- context [if ?c then _ else _] => destruct c end. apply kframe_refl.
   pose proof (kframe_mark_written sch s o a D) as F1.
   destruct (oval_eqb (obj_val s o a) (Some v)); auto.
   assert (F2 : kframe sch s (upd_obj (mark_written s o a) o (fun ob => ob_put_val ob a (Some v)))).
@@ -299,7 +300,8 @@ Qed.
 Lemma kframe_item_link : forall s o a r item, is_del (obj_st s item) = false -> kframe sch s (item_link sch s o a r item).
 Proof.
   intros. unfold item_link. destruct (ref_info sch (obj_ent s item) r) as [[t a']|]; [|apply kframe_refl].
-  destruct (Nat.eqb a' a); [|apply kframe_refl].
+  destruct (get_obj s o) as [obo|]; [|apply kframe_refl].
+  destruct (Nat.eqb a' a && Nat.eqb t (o_ent obo)); [|apply kframe_refl].
   eapply kframe_trans; [|apply kframe_sd_add_item]. apply kframe_ref_set_rev. assumption.
 Qed.
 
@@ -1463,25 +1465,24 @@ Hypothesis WF : wf_schema sch = true.
 
 Definition new_rel_step (o : oid) (e : nat) (acc : sess) (p : nat * cval) : sess :=
   match snd p with
-  | CVal (VRef t) => match ref_info sch e (fst p) with Some (_, r_) => rev_add acc t r_ o | None => acc end
+  | CVal (VRef t) => ref_set_direct sch acc o (fst p) (VRef t)
   | CVal _ => acc
   | CSet [] => acc
   | CSet items =>
     match set_info sch e (fst p) with
     | Some (_, r_) =>
       let acc1 := fold_left (fun ac i => item_link sch ac o (fst p) r_ i) items (note_order acc items) in
-      let acc1 := if seteq_nat (sd_items (get_sd acc1 o (fst p))) items then acc1 else mark_dirty acc1 24 in
+      let acc1 := if negb (Nat.eqb (s_dirty acc1) O) || seteq_nat (sd_items (get_sd acc1 o (fst p))) items then acc1 else mark_dirty acc1 24 in
       set_modified (modcoll_add (put_sd acc1 o (fst p) (mkSd items items [] true (Some (Z.of_nat (length items))))) o (fst p)) true
     | None => acc
     end
   end.
 
-Lemma kframe_d_new_rel_step : forall o e acc p,
+Lemma kframe_d_new_rel_step : forall o e acc p, is_del (obj_st acc o) = false ->
   (forall items, snd p = CSet items -> any_del acc items = false) -> kframe_d sch acc (new_rel_step o e acc p).
 Proof.
-  intros o e acc p AL. unfold new_rel_step. destruct (snd p) as [v|items] eqn:SP.
-  - destruct v; try apply kframe_d_refl. destruct (ref_info sch e (fst p)) as [[t r]|]; try apply kframe_d_refl.
-    apply kframe_to_d. apply kframe_rev_add.
+  intros o e acc p NDO AL. unfold new_rel_step. destruct (snd p) as [v|items] eqn:SP.
+  - destruct v; try apply kframe_d_refl. apply kframe_to_d. apply kframe_ref_set_direct; auto.
   - destruct items as [|i0 it0]. apply kframe_d_refl. set (items := i0 :: it0) in *.
     destruct (set_info sch e (fst p)) as [[t r_]|]; try apply kframe_d_refl.
     set (acc1 := fold_left (fun ac i => item_link sch ac o (fst p) r_ i) items (note_order acc items)).
@@ -1489,22 +1490,22 @@ Proof.
     { unfold acc1. apply (kframe_trans sch acc (note_order acc items)). apply kframe_note_order.
       apply kframe_fold_items; auto. intros. apply kframe_item_link; auto.
       rewrite (any_del_kframe sch acc (note_order acc items) items (kframe_note_order sch oid acc items)). apply AL. reflexivity. }
-    set (acc2 := if seteq_nat (sd_items (get_sd acc1 o (fst p))) items then acc1 else mark_dirty acc1 24).
+    set (acc2 := if negb (Nat.eqb (s_dirty acc1) O) || seteq_nat (sd_items (get_sd acc1 o (fst p))) items then acc1 else mark_dirty acc1 24).
     assert (F2 : kframe_d sch acc acc2).
-    { unfold acc2. destruct (seteq_nat (sd_items (get_sd acc1 o (fst p))) items). apply kframe_to_d. exact F1.
+    { unfold acc2. destruct (negb (Nat.eqb (s_dirty acc1) O) || seteq_nat (sd_items (get_sd acc1 o (fst p))) items). apply kframe_to_d. exact F1.
       eapply kframe_d_trans. apply kframe_to_d. exact F1. apply kframe_d_mark_dirty. discriminate. }
     eapply kframe_d_trans. exact F2. apply kframe_to_d.
     eapply kframe_trans. apply kframe_put_sd. eapply kframe_trans. apply kframe_modcoll_add. apply kframe_fields; reflexivity.
 Qed.
 
-Lemma kframe_d_new_rel_fold : forall o e ics acc,
+Lemma kframe_d_new_rel_fold : forall o e ics acc, is_del (obj_st acc o) = false ->
   (forall p items, In p ics -> snd p = CSet items -> any_del acc items = false) ->
   kframe_d sch acc (fold_left (new_rel_step o e) ics acc).
 Proof.
-  intros o e ics. induction ics as [|p t IH]; intros acc AL; simpl. apply kframe_d_refl.
+  intros o e ics. induction ics as [|p t IH]; intros acc NDO AL; simpl. apply kframe_d_refl.
   assert (F : kframe_d sch acc (new_rel_step o e acc p)).
-  { apply kframe_d_new_rel_step. intros items H. apply (AL p items); auto. left. reflexivity. }
-  eapply kframe_d_trans. exact F. apply IH. intros q items I H.
+  { apply kframe_d_new_rel_step; auto. intros items H. apply (AL p items); auto. left. reflexivity. }
+  eapply kframe_d_trans. exact F. apply IH. rewrite (kframe_d_is_del sch acc _ o F). exact NDO. intros q items I H.
   rewrite (any_del_kframe_d sch acc _ items F). apply (AL q items); auto. right. exact I.
 Qed.
 
@@ -1519,9 +1520,9 @@ Qed.
 Lemma In_combine_snd : forall A B (l : list A) (m : list B) p, In p (combine l m) -> In (snd p) m.
 Proof. intros A B l m [x y] H. apply in_combine_r in H. exact H. Qed.
 
-Lemma new_obj_record_props : forall e pk cs upto,
-  o_ent (new_obj_record e pk cs upto) = e /\ o_pk (new_obj_record e pk cs upto) = pk /\
-  o_st (new_obj_record e pk cs upto) = SCreated /\ length (o_vals (new_obj_record e pk cs upto)) = length cs.
+Lemma new_obj_record_props : forall nr e pk cs upto,
+  o_ent (new_obj_record nr e pk cs upto) = e /\ o_pk (new_obj_record nr e pk cs upto) = pk /\
+  o_st (new_obj_record nr e pk cs upto) = SCreated /\ length (o_vals (new_obj_record nr e pk cs upto)) = length cs.
 Proof.
   intros. unfold new_obj_record. cbn [o_ent o_pk o_st o_vals]. repeat split; auto.
   rewrite map_length, combine_length, seq_length. lia.
@@ -1543,28 +1544,29 @@ Hypothesis WF : wf_schema sch = true.
 Lemma nattrs_eq : forall e en, nth_error sch e = Some en -> nattrs sch e = length (e_attrs en).
 Proof. intros. unfold nattrs. rewrite H. reflexivity. Qed.
 
-Lemma Pk_new_op : forall s e pk kw, Pk sch s -> Pk sch (fst (new_op sch s e pk kw)).
+(* the new object with its primary key and its unique keys registered (before the relationship attributes are processed) *)
+Definition new_registered (s : sess) (e : nat) (pk : option Z) (cs : list cval) : sess :=
+  let n := length cs in
+  let ob0 := new_obj_record true e pk cs n in
+  let o := length (s_objs s) in
+  let s1 := set_objs s (s_objs s ++ [ob0]) in
+  let s2 := match pk with Some z => idx_put s1 e 0 (VInt z) o | None => s1 end in
+  put_keys sch s2 o e (seq 0 n).
+
+Lemma Pk_new_registered : forall s e en pk kw cs,
+  nth_error sch e = Some en -> validate_all s (e_attrs en) 0 kw = VOk cs ->
+  key_conflicts sch s e (new_obj_record true e pk cs (length cs)) (seq 0 (length cs)) = false ->
+  match pk with Some z => match idx_get s e 0 (VInt z) with Some _ => true | None => false end | None => false end = false ->
+  Pk sch s ->
+  Pk sch (new_registered s e pk cs) /\ s_dirty (new_registered s e pk cs) = s_dirty s /\
+  (forall o', get_obj (new_registered s e pk cs) o' = if Nat.eqb o' (length (s_objs s)) then Some (new_obj_record true e pk cs (length cs)) else get_obj s o').
 Proof.
-  intros s e pk kw P. unfold new_op. destruct (nth_error sch e) as [en|] eqn:EN; [|exact P].
-  destruct (negb (kw_handles_ok s kw)). exact P.
-  destruct (existsb _ kw). exact P.
-  destruct (negb (e_auto en) && match pk with None => true | Some _ => false end). exact P.
-  destruct (validate_all s (e_attrs en) 0 kw) as [cs| |] eqn:VA; try exact P.
-  set (n := length cs). set (ob0 := new_obj_record e pk cs n).
-  destruct (key_conflicts sch s e ob0 (seq 0 n)) eqn:KC. exact P.
-  destruct (match pk with Some z => match idx_get s e 0 (VInt z) with Some _ => true | None => false end | None => false end) eqn:PC. exact P.
-  destruct (first_bad_set s cs 0) as [j|] eqn:FB.
-  { (* phantom *) unfold push_obj. cbn [fst]. apply Pk_dirty. discriminate. }
-  unfold push_obj.
+  intros s e en pk kw cs EN VA KC PC P. unfold new_registered.
+  set (n := length cs). set (ob0 := new_obj_record true e pk cs n).
   set (o := length (s_objs s)). set (s1 := set_objs s (s_objs s ++ [ob0])).
   set (s2 := match pk with Some z => idx_put s1 e 0 (VInt z) o | None => s1 end).
   set (s3 := put_keys sch s2 o e (seq 0 n)).
-  match goal with |- context [fold_left ?f (combine (seq 0 n) cs) s3] => change f with (new_rel_step sch o e) end.
-  set (s4 := fold_left (new_rel_step sch o e) (combine (seq 0 n) cs) s3).
-  assert (P4 : Pk sch s4).
-  2:{ pose proof (Pk_handle_of sch (queue s4 o) o (kframe_Pk sch _ _ (kframe_queue sch s4 o) P4)) as P5.
-      destruct (handle_of (queue s4 o) o). exact P5. }
-  destruct (new_obj_record_props e pk cs n) as (OE & OP & OS & OL). fold ob0 in OE, OP, OS, OL.
+  destruct (new_obj_record_props true e pk cs n) as (OE & OP & OS & OL). fold ob0 in OE, OP, OS, OL.
   assert (NA : n = nattrs sch e) by (unfold n; rewrite (validate_all_length s _ _ _ _ VA); symmetry; apply nattrs_eq; auto).
   destruct (put_keys_objs sch (seq 0 n) s2 o e) as [OBJ3 DIRTY3]. fold s3 in OBJ3, DIRTY3.
   assert (OBJ2 : s_objs s2 = s_objs s ++ [ob0]) by (unfold s2; destruct pk; reflexivity).
@@ -1572,38 +1574,65 @@ Proof.
   { intros. unfold get_obj. rewrite OBJ3, OBJ2. fold (get_obj (fst (push_obj s ob0)) o'). apply get_push_obj. }
   assert (G2o : get_obj s2 o = Some ob0).
   { unfold get_obj. rewrite OBJ2. apply nth_error_app_new. }
-  assert (P3 : Pk sch s3).
-  { destruct P as [D|[I SH]]. { left. rewrite DIRTY3. unfold s2. destruct pk; exact D. }
-    right. split.
-    - apply (Inv_push sch s s3 ob0 I G3).
-      + intros e' k v. unfold s3. rewrite (put_keys_spec sch (seq 0 n) s2 o e ob0 G2o e' k v).
-        rewrite OE. unfold kview. rewrite OE, OS. cbn [key_live is_gone is_del negb].
-        assert (IDX2 : idx_get s2 e' k v = if Nat.eqb e' e && Nat.eqb k 0 && oval_eqb (okey ob0 0) (Some v) then Some o else idx_get s e' k v).
-        { unfold s2, okey. rewrite OP. destruct pk as [z|].
-          - rewrite idx_put_char. change (idx_get s1 e' k v) with (idx_get s e' k v). simpl. rewrite (val_eqb_sym v (VInt z)). reflexivity.
-          - rewrite !andb_false_r. reflexivity. }
-        rewrite IDX2. destruct (Nat.eqb e' e); simpl; auto. destruct k as [|a]; simpl.
-        * reflexivity.
-        * rewrite andb_true_r. rewrite mem_seq. destruct (attr_uniq sch e a) eqn:U; simpl; rewrite ?andb_false_r; auto.
-          rewrite NA, (attr_uniq_lt sch e a U). simpl.
-          destruct (oval ob0 a) as [w|]; simpl; auto. destruct (is_vnone w) eqn:NW; simpl.
-          -- destruct (val_eqb w v) eqn:EW; simpl; auto. apply val_eqb_eq in EW. subst w. rewrite NW. reflexivity.
-          -- destruct (val_eqb w v) eqn:EW; simpl; auto. apply val_eqb_eq in EW. subst w. rewrite NW. reflexivity.
-      + intros k v H. rewrite OE. unfold kview in H. rewrite OE, OS in H. cbn [key_live is_gone is_del negb] in H.
-        destruct k as [|a].
-        * simpl in H. try rewrite OP in H. destruct pk as [z|]; try discriminate. inversion H; subst v.
-          destruct (idx_get s e 0 (VInt z)); [discriminate|reflexivity].
-        * simpl in H. destruct (attr_uniq sch e a) eqn:U; simpl in H; try discriminate.
-          destruct (oval ob0 a) as [w|] eqn:OW; try discriminate. destruct (is_vnone w) eqn:NW; try discriminate. inversion H; subst w.
-          unfold key_conflicts in KC. destruct (idx_get s e (S a) v) eqn:IX; auto. exfalso.
-          assert (E : existsb (fun a0 => attr_uniq sch e a0 && match oval ob0 a0 with Some v0 => negb (is_vnone v0) && match idx_get s e (S a0) v0 with Some _ => true | None => false end | None => false end) (seq 0 n) = true).
-          { apply existsb_exists. exists a. split. apply in_seq. pose proof (attr_uniq_lt sch e a U) as L. apply Nat.ltb_lt in L. lia.
-            rewrite U, OW, NW, IX. reflexivity. }
-          congruence.
-    - intros o' ob'. rewrite G3. destruct (Nat.eqb o' o).
-      + intro H. inversion H; subst ob'. rewrite OL, OE. exact NA.
-      + apply SH. }
+  assert (D3 : s_dirty s3 = s_dirty s) by (rewrite DIRTY3; unfold s2; destruct pk; reflexivity).
+  split; [|split; [exact D3|exact G3]].
+  destruct P as [D|[I SH]]. { left. rewrite D3. exact D. }
+  right. split.
+  - apply (Inv_push sch s s3 ob0 I G3).
+    + intros e' k v. unfold s3. rewrite (put_keys_spec sch (seq 0 n) s2 o e ob0 G2o e' k v).
+      rewrite OE. unfold kview. rewrite OE, OS. cbn [key_live is_gone is_del negb].
+      assert (IDX2 : idx_get s2 e' k v = if Nat.eqb e' e && Nat.eqb k 0 && oval_eqb (okey ob0 0) (Some v) then Some o else idx_get s e' k v).
+      { unfold s2, okey. rewrite OP. destruct pk as [z|].
+        - rewrite idx_put_char. change (idx_get s1 e' k v) with (idx_get s e' k v). simpl. rewrite (val_eqb_sym v (VInt z)). reflexivity.
+        - rewrite !andb_false_r. reflexivity. }
+      rewrite IDX2. destruct (Nat.eqb e' e); simpl; auto. destruct k as [|a]; simpl.
+      * reflexivity.
+      * rewrite andb_true_r. rewrite mem_seq. destruct (attr_uniq sch e a) eqn:U; simpl; rewrite ?andb_false_r; auto.
+        rewrite NA, (attr_uniq_lt sch e a U). simpl.
+        destruct (oval ob0 a) as [w|]; simpl; auto. destruct (is_vnone w) eqn:NW; simpl.
+        -- destruct (val_eqb w v) eqn:EW; simpl; auto. apply val_eqb_eq in EW. subst w. rewrite NW. reflexivity.
+        -- destruct (val_eqb w v) eqn:EW; simpl; auto. apply val_eqb_eq in EW. subst w. rewrite NW. reflexivity.
+    + intros k v H. rewrite OE. unfold kview in H. rewrite OE, OS in H. cbn [key_live is_gone is_del negb] in H.
+      destruct k as [|a].
+      * simpl in H. try rewrite OP in H. destruct pk as [z|]; try discriminate. inversion H; subst v.
+        destruct (idx_get s e 0 (VInt z)); [discriminate|reflexivity].
+      * simpl in H. destruct (attr_uniq sch e a) eqn:U; simpl in H; try discriminate.
+        destruct (oval ob0 a) as [w|] eqn:OW; try discriminate. destruct (is_vnone w) eqn:NW; try discriminate. inversion H; subst w.
+        unfold key_conflicts in KC. destruct (idx_get s e (S a) v) eqn:IX; auto. exfalso.
+        assert (E : existsb (fun a0 => attr_uniq sch e a0 && match oval ob0 a0 with Some v0 => negb (is_vnone v0) && match idx_get s e (S a0) v0 with Some _ => true | None => false end | None => false end) (seq 0 n) = true).
+        { apply existsb_exists. exists a. split. apply in_seq. pose proof (attr_uniq_lt sch e a U) as L. apply Nat.ltb_lt in L. lia.
+          rewrite U, OW, NW, IX. reflexivity. }
+        fold n ob0 in KC. congruence.
+  - intros o' ob'. rewrite G3. destruct (Nat.eqb o' o).
+    + intro H. inversion H; subst ob'. rewrite OL, OE. exact NA.
+    + apply SH.
+Qed.
+
+Lemma Pk_new_op : forall s e pk kw, Pk sch s -> Pk sch (fst (new_op sch s e pk kw)).
+Proof.
+  intros s e pk kw P. unfold new_op. destruct (nth_error sch e) as [en|] eqn:EN; [|exact P].
+  destruct (negb (kw_handles_ok s kw)). exact P.
+  destruct (existsb _ kw). exact P.
+  destruct (negb (e_auto en) && match pk with None => true | Some _ => false end). exact P.
+  destruct (validate_all s (e_attrs en) 0 kw) as [cs| |] eqn:VA; try exact P.
+  set (n := length cs). set (ob0 := new_obj_record true e pk cs n).
+  destruct (key_conflicts sch s e ob0 (seq 0 n)) eqn:KC. exact P.
+  destruct (match pk with Some z => match idx_get s e 0 (VInt z) with Some _ => true | None => false end | None => false end) eqn:PC. exact P.
+  destruct (first_bad_set s cs 0) as [j|] eqn:FB.
+  { (* phantom *) unfold push_obj. cbn [fst]. apply Pk_dirty. discriminate. }
+  unfold push_obj.
+  destruct (Pk_new_registered s e en pk kw cs EN VA KC PC P) as (P3 & D3 & G3). unfold new_registered in P3, D3, G3. fold n ob0 in P3, D3, G3.
+  set (o := length (s_objs s)) in *. set (s1 := set_objs s (s_objs s ++ [ob0])) in *.
+  set (s2 := match pk with Some z => idx_put s1 e 0 (VInt z) o | None => s1 end) in *.
+  set (s3 := put_keys sch s2 o e (seq 0 n)) in *.
+  match goal with |- context [fold_left ?f (combine (seq 0 n) cs) s3] => change f with (new_rel_step sch o e) end.
+  set (s4 := fold_left (new_rel_step sch o e) (combine (seq 0 n) cs) s3).
+  assert (P4 : Pk sch s4).
+  2:{ pose proof (Pk_handle_of sch (queue s4 o) o (kframe_Pk sch _ _ (kframe_queue sch s4 o) P4)) as P5.
+      destruct (handle_of (queue s4 o) o). exact P5. }
+  destruct (new_obj_record_props true e pk cs n) as (OE & OP & OS & OL). fold ob0 in OE, OP, OS, OL.
   eapply kframe_d_Pk; [|exact P3]. apply kframe_d_new_rel_fold; auto.
+  { unfold obj_st. rewrite G3, Nat.eqb_refl. rewrite OS. reflexivity. }
   intros p items I SP. pose proof (In_combine_snd _ _ _ _ p I) as IC. rewrite SP in IC.
   pose proof (first_bad_set_none s cs 0 FB items IC) as AD.
   unfold any_del. rewrite <- AD. unfold any_del. apply existsb_ext_eq_in. intros i Hi.
